@@ -39,6 +39,57 @@ class Problem(Exception):
     pass
 
 
+class GCInt(int):
+    """an index argument that runs a collection when the library computes or compares with it for the k-th time: this
+    pins a collection between two position lookups of one call (a window that allocation thresholds rarely hit)"""
+
+    fire_at = 0
+    calls = 0
+
+    def _hook(self):
+        GCInt.calls += 1
+        if GCInt.calls == GCInt.fire_at:
+            gc.collect()
+
+    def __lt__(self, other):
+        self._hook()
+        return int(self) < other
+
+    def __le__(self, other):
+        self._hook()
+        return int(self) <= other
+
+    def __gt__(self, other):
+        self._hook()
+        return int(self) > other
+
+    def __ge__(self, other):
+        self._hook()
+        return int(self) >= other
+
+    def __eq__(self, other):
+        self._hook()
+        return int(self) == other
+
+    def __add__(self, other):
+        self._hook()
+        return int(self) + other
+
+    def __radd__(self, other):
+        self._hook()
+        return other + int(self)
+
+    def __sub__(self, other):
+        self._hook()
+        return int(self) - other
+
+    def __rsub__(self, other):
+        self._hook()
+        return other - int(self)
+
+    __hash__ = int.__hash__
+
+
 def kids_of(obj):
     from delb import TagNode, altered_default_filters
 
@@ -147,6 +198,9 @@ class GCWorld:
         j = 0
         for c in ik:
             pc = plain(c)
+            while j < len(mk) and mk[j][0] == "x" and mk[j][2] == "":
+                out.append(mk[j])  # a text node whose content is "" is not among the children
+                j += 1
             if j >= len(mk):
                 raise Problem(f"surplus child {pc} under node {E.tid(mnode)}")
             m = mk[j]
@@ -177,6 +231,9 @@ class GCWorld:
                 self.align(m, c, new_from, found)
                 out.append(m)
                 j += 1
+        while j < len(mk) and mk[j][0] == "x" and mk[j][2] == "":
+            out.append(mk[j])
+            j += 1
         if j != len(mk):
             raise Problem(f"missing children under node {E.tid(mnode)}: {[mirror_plain(m) for m in mk[j:]]}")
         mnode[5] = out
@@ -235,19 +292,57 @@ class GCWorld:
         for i in set(ids + becomes_root):
             w.objs[i] = self.resolve(i)
         before_next = m.next
+        pin = getattr(self, "pin", 0)
+        alt, alt_ok = None, False
+        if pin and "index" in op:
+            # a collection before the call's first lookup coalesces the unreferenced text nodes: the index then counts
+            # in the coalesced tree. Both readings of the index are legitimate outcomes
+            alt = copy.deepcopy(m)
+            for t in alt.groups:
+                if t is not None:
+                    alt.merge(t)
+            try:
+                alt.apply(copy.deepcopy(op))
+                alt_ok = True
+            except E.Rejected:
+                alt_ok = False
         try:
             m.apply(copy.deepcopy(op))
         except E.Rejected:
             return False
         for i in becomes_root:
             self.held[i] = w.objs[i]
-        err, r = E.World.apply(w, op)
+        if pin and "index" in op:
+            GCInt.fire_at, GCInt.calls = pin, 0
+            try:
+                err, r = E.World.apply(w, dict(op, index=GCInt(op["index"])))
+            finally:
+                GCInt.fire_at = 0
+        else:
+            err, r = E.World.apply(w, op)
         del r
         w.objs.clear()
         if err is not None:
+            if alt is not None and not alt_ok and err == "IndexError":
+                self.mirror = alt  # out of range in the coalesced tree
+                for i in becomes_root:
+                    self.held.pop(i, None)
+                self.check_all()
+                return True
             raise Problem(f"{op['op']} raised {err}")
         # retained children of a detached node stay in the tree; moved nodes are no group roots any more: nothing to do
-        found = self.check_all(new_from=before_next)
+        try:
+            found = self.check_all(new_from=before_next)
+        except Problem:
+            if not alt_ok:
+                raise
+            saved = self.mirror
+            self.mirror = alt
+            try:
+                found = self.check_all(new_from=before_next)
+            except Problem:
+                self.mirror = saved
+                raise
         for nid, obj in found:
             if self.rng.random() < self.hold_p:
                 self.held[nid] = obj
@@ -314,15 +409,38 @@ def run_history(run: Run, stream, case, rows):
         world = GCWorld(case["xml"], rng, case["hold_p"], case["doc_mode"])
         try:
             world.check_all()
-            if "micro" in case:
+            if "pinned" in case:
+                planned = pinned_plan(world, case["pinned"])
+            elif "empty" in case:
+                planned = empty_content_plan(world, case["empty"])
+            elif "micro" in case:
                 cands = all_ops(world.mirror)
                 planned = [cands[case["micro"] % len(cands)]] if cands else []
             else:
                 planned = None
             for i in range(case["length"] if planned is None else len(planned)):
                 op = E.gen_op(rng, world.mirror) if planned is None else planned[i]
+                world.pin = case["fire"] if ("pinned" in case and i == len(planned) - 1 and i > 0) else 0
                 if not world.step(op):
                     continue
+                if "pinned" in case and i == len(planned) - 1:
+                    # negative index access right after: the last child is the last child
+                    world.pin = 0
+                    root = world.group_root(0)
+                    from delb import altered_default_filters
+                    GCInt.fire_at, GCInt.calls = case["fire"], 0
+                    try:
+                        with altered_default_filters():
+                            got = root[GCInt(-1)]
+                    except IndexError:
+                        got = None
+                    finally:
+                        GCInt.fire_at = 0
+                    with altered_default_filters():
+                        last = root.last_child
+                    if got is not last:
+                        raise Problem("root[-1] is not the last child with a collection inside the call")
+                    del got, last, root
                 steps += 1
                 if mode == "forced":
                     els, req = world.snapshot()
@@ -382,6 +500,45 @@ def compare_with_model(run: Run, rows):
                 break
 
 
+def pinned_plan(world, k):
+    """two unreferenced text nodes next to each other (a collection may coalesce them at any time), then one index based
+    call whose index argument fires a collection between the call's position lookups"""
+    root = world.mirror.groups[0]
+    tags = [n for n in root[5] if n[0] == "t"]
+    if not tags:
+        return []
+    setup = {"op": "add_following", "target": E.tid(tags[0]), "items": [{"str": "s1"}, {"str": "s2"}]}
+    n = len(root[5]) + 2
+    DEF = {"def": ["n", [], []]}
+    cands = [{"op": "insert", "target": 0, "index": i, "items": [DEF, dict(DEF), {"str": "z"}]} for i in range(n + 1)]
+    cands += [{"op": "delitem", "target": 0, "index": i} for i in range(n)]
+    cands += [None, None, None]  # no editing call: only the negative index access afterwards
+    c = cands[k % len(cands)]
+    return [setup] if c is None else [setup, c]
+
+
+def empty_content_plan(world, k):
+    """a text node that is held without its element is emptied (it leaves the tree, its element has no text there any
+    more), collections run, then it gets content again and nodes are added next to it through the held reference"""
+    cands = []
+    for p, n in E.walk(world.mirror.groups[0]):
+        if n[0] != "x" or not p:
+            continue
+        sib = world.mirror.parent(0, p)[5]
+        i = p[-1]
+        if (i > 0 and sib[i - 1][0] == "x") or (i + 1 < len(sib) and sib[i + 1][0] == "x"):
+            continue
+        cands.append(E.tid(n))
+    if not cands:
+        return []
+    t = cands[k % len(cands)]
+    world.held[t] = world.resolve(t)
+    return [{"op": "set_content", "target": t, "s": ""}, {"op": "merge", "target": 0},
+            {"op": "set_content", "target": t, "s": "N"},
+            {"op": "add_following", "target": t, "items": [{"str": "R"}]},
+            {"op": "add_following", "target": t, "items": [{"def": ["n", [], []]}]}]
+
+
 def all_ops(mirror):
     """every single editing call applicable to the document tree (deterministic order): the multi-step methods are the
     ones a collection in the middle can disturb (they look up a position, move text, then insert)"""
@@ -433,6 +590,15 @@ def micro_cases(rng, n, systematic_docs=()):
         for k in range(count_ops(xml)):
             out.append({"xml": xml, "seed": rng.randrange(1 << 30), "mode": "auto", "hold_p": 0.0,
                         "doc_mode": rng.choice(["doc-only", "root-only", "both"]), "length": 1, "micro": k})
+    for xml in MICRO_DOCS:
+        for k in range(len(xml) // 2 if systematic_docs else 6):
+            for fire in (1, 2, 3, 4, 5, 6, 8):
+                out.append({"xml": xml, "seed": rng.randrange(1 << 30), "mode": "none", "hold_p": 0.0, "doc_mode": "doc-only",
+                            "length": 2, "pinned": rng.randrange(1 << 20) if not systematic_docs else k, "fire": fire})
+    for xml in MICRO_DOCS + E.DOCS:
+        for k in range(4):
+            out.append({"xml": xml, "seed": rng.randrange(1 << 30), "mode": rng.choice(["forced", "auto"]), "hold_p": 0.0,
+                        "doc_mode": rng.choice(["doc-only", "root-only", "both"]), "length": 5, "empty": k})
     for _ in range(n):
         out.append({"xml": rng.choice(MICRO_DOCS + E.DOCS), "seed": rng.randrange(1 << 30), "mode": "auto",
                     "hold_p": rng.choice([0.0, 0.0, 0.15, 0.3]), "doc_mode": rng.choice(["doc-only", "root-only", "both"]),
@@ -458,7 +624,7 @@ def corpus():
 
 def check(run: Run, lean: dict) -> int:
     common.use_repo()
-    n = 500 if run.tier == "quick" else 12000
+    n = 300 if run.tier == "quick" else 12000
     run.extra["rule"] = (
         "random Legal edit histories (4-16 calls) over 12 seed documents; the program holds a random subset of the nodes "
         "(fraction 0/0.15/0.3/0.6/1, incl. text nodes without their element, appended text nodes without their predecessors) "
